@@ -306,6 +306,37 @@ def machine_rule(rep, prog, cfg):
                       "builder transition %s in state %s: %s" % (m, v, "; ".join(problems)))
 
 
+INEXACT = ("eq_ignore_ascii_case", "to_ascii_lowercase", "to_ascii_uppercase", "to_lowercase", "to_uppercase", "make_ascii_lowercase",
+           "make_ascii_uppercase", "trim", "trim_start", "trim_end", "trim_matches", "starts_with", "ends_with", "strip_prefix", "strip_suffix",
+           "contains", "find", "rfind", "replace", "split", "split_once", "get_unchecked", "from_utf8_lossy")
+
+
+def key_exact_rule(rep, prog, cfg):
+    """Field names are interned per connection: the function that maps a parsed key (&str) to the shared Arc<str> must give
+    back a key equal to its argument, byte for byte.  Found by its signature.  A lookup through an inexact comparison
+    (case-folding, trimming, prefix test) would hand out the spelling seen first on the connection — decoded keys would
+    depend on earlier responses."""
+    rule = "C03.key-exact"
+    fns = [b for b in prog.bodies.values() if b.crate == "mpd_protocol" and b.kind in ("Fn", "AssocFn") and not b.raw.get("derived")
+           and b.local_ty(0).replace(" ", "") == "alloc::sync::Arc<str>" and any(b.local_ty(i).startswith("&") and b.local_ty(i).endswith("str")
+                                                                                 for i in range(1, b.mir["argc"] + 1))]
+    rep.floor(rule, cfg + "/key interning functions", len(fns), 1, "response/mod.rs")
+    for b in fns:
+        bad = []
+        lookups = set()
+        for fb in family(prog, b):
+            for bb, t in fb.calls():
+                for n in callee_names(t):
+                    last = n.rsplit("::", 1)[-1].split("::<")[0]
+                    if ("str" in n or "String" in n or "slice" in n) and last in INEXACT and ("<impl str>" in n or "::str::" in n or "String" in n or "<impl [" in n):
+                        bad.append(last)
+                    if last in ("get", "contains", "insert", "get_or_insert_with", "find", "position", "binary_search", "entry"):
+                        lookups.add(n)
+        rep.check(not bad, rule, "%s/%s exact lookup" % (cfg, norm(b.name)), b.loc(b.span),
+                  "the key cache compares keys through %s: a key is returned in the spelling that was cached first, not as the server sent it in this "
+                  "response (decoding would depend on earlier responses on the connection)" % sorted(set(bad)), detail={"lookups": sorted(lookups)})
+
+
 def response_constructors_rule(rep, prog, cfg):
     """Who may construct a Response, and every construction has >= 1 frame or an error (supports the
     into_single_frame unwrap audited in C12/C08)."""
@@ -618,6 +649,7 @@ def run(rep, progs, tier):
         "UTF-8 decoding itself and integer parsing (delegated to std), the relation between the announced "
         "and the taken payload length beyond provenance.")
     rep.rule("C03.machine", "builder transition table (5 methods x 3 states) equals the protocol table")
+    rep.rule("C03.key-exact", "the per-connection key cache returns a key equal to the parsed key (no case-folding / trimming / prefix lookup)")
     rep.rule("C03.response-ctor", "Response constructed only by the builder / Response::empty")
     rep.rule("C03.ack", "ACK [code@index] {command} message: fields tied to tuple positions, mapped field to field")
     rep.rule("C03.binary", "payload = split-off message, cut by data_length only, never scanned")
@@ -627,6 +659,7 @@ def run(rep, progs, tier):
     for cfg, prog in progs.items():
         machine_rule(rep, prog, cfg)
         response_constructors_rule(rep, prog, cfg)
+        key_exact_rule(rep, prog, cfg)
         ack_rule(rep, prog, cfg)
         binary_rule(rep, prog, cfg)
         priority_rule(rep, prog, cfg)
